@@ -48,7 +48,8 @@ def consOf (j : Json) : Cons :=
   | .obj kvs => kvs.toList.map fun (k, v) => (k, toM v)
   | _ => []
 
-def metaOf (j : Json) : RuleMeta := ⟨optStrJ (fld j "primitive"), optStrJ (fld j "format")⟩
+def metaOf (j : Json) : RuleMeta :=
+  { primitive := optStrJ (fld j "primitive"), format := optStrJ (fld j "format"), name := str! (fld j "name"), uid := nat! (fld j "uid") }
 
 def flagOf (j : Json) : Flag :=
   match j with
@@ -91,6 +92,9 @@ partial def tyOf (j : Json) : Ty :=
   match str! (fld j "k") with
   | "plain" => (primOf (str! (fld j "p"))).elim .any .plain
   | "scalar" => .scalar ((primOf (str! (fld j "p"))).getD .str) (metaOf j) (consOf (fld j "cons"))
+  | "derived" =>
+    let b := fld j "base"
+    .derived ((primOf (str! (fld b "p"))).getD .str) (metaOf b) (consOf (fld b "cons")) (nat! (fld j "uid")) (consOf (fld j "cons"))
   | "seq" => .seq ((primOf (str! (fld j "p"))).getD .list) (metaOf j) (consOf (fld j "cons")) (tyOf (fld j "item"))
   | "tup" => .tup (metaOf j) (consOf (fld j "cons")) ((arr! (fld j "items")).map tyOf)
   | "map" => .map (metaOf j) (consOf (fld j "cons")) (tyOf (fld j "key")) (tyOf (fld j "val"))
@@ -112,7 +116,7 @@ partial def tyOf (j : Json) : Ty :=
     let opts : Opts := { mode := optChar (fld o "mode"), addition := additionOf (str! (fld o "addition")),
                          ignoreRequired := bool! (fld o "ignore_required"), noDefault := bool! (fld o "no_default"),
                          deferDefault := bool! (fld o "defer_default") }
-    .data ⟨str! (fld j "name"), opts⟩
+    .data { name := str! (fld j "name"), opts := opts, uid := nat! (fld j "uid") }
       ((arr! (fld j "fields")).map fun f => Fld.mk (normField (rawField f)) (tyOf (fld f "ty")))
       (if isNull (fld j "addTy") then .any else tyOf (fld j "addTy"))
   | _ => .any
